@@ -252,6 +252,8 @@ type C10Conn struct {
 	Frames    []C07Frame `json:"frames"`
 	Chunk     int        `json:"chunk"`
 	BothWays  bool       `json:"both_ways"`
+	// Keep: each packet is received into its own Packet; all are compared again at the end
+	Keep bool `json:"keep,omitempty"`
 }
 
 func c10CheckConn(c C10Conn) *pbt.Violation {
@@ -273,8 +275,12 @@ func c10CheckConn(c C10Conn) *pbt.Violation {
 			}
 		}
 		var p pk.Packet
+		var kept []pk.Packet
 		for i, f := range c.Frames {
 			var err error
+			if c.Keep {
+				p = pk.Packet{}
+			}
 			if pv, stack := pbt.Try(func() { err = to.ReadPacket(&p) }); pv != nil {
 				return pbt.V(pbt.PanicKey("c10.conn", stack), "no panic", "%s ReadPacket #%d panicked: %v\n%s", dir, i, pv, stack)
 			}
@@ -283,6 +289,15 @@ func c10CheckConn(c C10Conn) *pbt.Violation {
 			}
 			if p.ID != f.ID || !bytes.Equal(p.Data, f.payload()) {
 				return pbt.V("c10.conn.content", "every packet intact and in order", "%s packet #%d: got id %d/%d bytes, want id %d/%d bytes (thr %d)", dir, i, p.ID, len(p.Data), f.ID, f.Len, c.Threshold)
+			}
+			if c.Keep {
+				kept = append(kept, p)
+			}
+		}
+		for i := range kept {
+			if f := c.Frames[i]; kept[i].ID != f.ID || !bytes.Equal(kept[i].Data, f.payload()) {
+				return pbt.V("c10.conn.retained", "delivers every packet intact (the packet stays what was received)",
+					"%s packet #%d of %d looked at again after the later ones were read: id %d/%d bytes, was id %d/%d bytes (thr %d)", dir, i, len(kept), kept[i].ID, len(kept[i].Data), f.ID, f.Len, c.Threshold)
 			}
 		}
 		return nil
@@ -309,11 +324,16 @@ var c10Conn = pbt.Register(pbt.Prop[C10Conn]{
 		}
 		c.Chunk = rapid.SampledFrom([]int{0, 1, 5, 16, 17, 33, 100}).Draw(t, "chunk")
 		c.BothWays = rapid.Bool().Draw(t, "both")
+		c.Keep = rapid.Bool().Draw(t, "keep")
 		return c
 	},
 	Check: c10CheckConn,
 	Classify: func(c C10Conn) (bool, []string, []byte) {
-		return len(c.Frames) >= 2, []string{fmt.Sprintf("conn_thr_%d", c.Threshold)}, nil
+		labels := []string{fmt.Sprintf("conn_thr_%d", c.Threshold)}
+		if c.Keep {
+			labels = append(labels, "received_packets_retained")
+		}
+		return len(c.Frames) >= 2, labels, nil
 	},
 	Quick: 16000, Thorough: 300000,
 })
